@@ -303,7 +303,27 @@ func checkTypestate(c *Ctx, r *Run, m *lockModel) {
 			r.Analysed(c.FuncName(fn))
 			// nothing may-abort / send after it in this frame
 			bad := ""
-			walkForward(in, func(x ssa.Instruction) bool {
+			walk := func(visit func(ssa.Instruction) bool) { walkForward(in, visit) }
+			// a helper that reports "the session was ended" through its boolean result: only the continuation
+			// taken when it says so has to be quiet
+			if call, isCall := in.(*ssa.Call); isCall && signalsAbort(cal, ts.mayAb) {
+				if blk := in.Block(); len(blk.Instrs) > 0 {
+					if iff, isIf := blk.Instrs[len(blk.Instrs)-1].(*ssa.If); isIf {
+						cond, neg := iff.Cond, false
+						if u, ok := cond.(*ssa.UnOp); ok && u.Op == token.NOT {
+							cond, neg = u.X, true
+						}
+						if cond == ssa.Value(call) {
+							ended := blk.Succs[1] // result false
+							if neg {
+								ended = blk.Succs[0]
+							}
+							walk = func(visit func(ssa.Instruction) bool) { walkFrom(ended, 0, visit) }
+						}
+					}
+				}
+			}
+			walk(func(x ssa.Instruction) bool {
 				if bad != "" {
 					return true
 				}
@@ -646,4 +666,62 @@ func (ts *handlerTS) runningAtCall(fn *ssa.Function, in ssa.Instruction) (bool, 
 		missing = append(missing, m.fieldName(ts.resF)+" == nil")
 	}
 	return false, fmt.Sprintf("%s can reach this call without having established %s under the lock: on a finished or aborted session the channel is closed a second time (panic) ; on a running one the guard may skip the call", fn.Name(), strings.Join(missing, " and "))
+}
+
+// signalsAbort: fn returns a single bool that is the constant false on every path on which a call that may end the
+// session was made (so `if !fn() { return }` in the caller stops exactly when the session ended).
+func signalsAbort(fn *ssa.Function, mayAb map[*ssa.Function]bool) bool {
+	res := fn.Signature.Results()
+	if res.Len() != 1 {
+		return false
+	}
+	if b, ok := res.At(0).Type().Underlying().(*types.Basic); !ok || b.Kind() != types.Bool {
+		return false
+	}
+	var aborts []ssa.Instruction
+	allInstrs(fn, func(in ssa.Instruction) {
+		if _, isDefer := in.(*ssa.Defer); isDefer {
+			return
+		}
+		if cal := staticCallee(in); cal != nil && mayAb[cal] {
+			aborts = append(aborts, in)
+		}
+	})
+	if len(aborts) == 0 {
+		return false
+	}
+	for _, ret := range returnsOf(fn) {
+		after := false
+		for _, a := range aborts {
+			if a.Block() == ret.Block() || blockReaches(a.Block(), ret.Block()) {
+				after = true
+			}
+		}
+		if !after {
+			continue
+		}
+		v := ret.Results[0]
+		if ph, ok := v.(*ssa.Phi); ok {
+			// each edge coming from an aborting path must be false
+			for i, e := range ph.Edges {
+				pred := ph.Block().Preds[i]
+				fromAbort := false
+				for _, a := range aborts {
+					if a.Block() == pred || blockReaches(a.Block(), pred) {
+						fromAbort = true
+					}
+				}
+				if fromAbort {
+					if k, ok := constBool(e); !ok || k {
+						return false
+					}
+				}
+			}
+			continue
+		}
+		if k, ok := constBool(v); !ok || k {
+			return false
+		}
+	}
+	return true
 }
